@@ -358,21 +358,25 @@ func libReMatch(g *FuncGen, c *ast.CallExpr, callee *types.Func, st *State) []Va
 	}
 	rv := g.ev(sel.X, st)
 	g.oblige(st, "nil", g.exprText(sel.X), nil, fmt.Sprintf("(not (= %s 0))", rv.T), c.Pos(), g.exprText(c.Fun))
-	g.declFun("reMatchDyn", []string{"Int", "Bytes"}, "Bool")
-	return []Val{{fmt.Sprintf("(reMatchDyn %s %s)", rv.T, subj.T), boolT, "Bool"}}
+	// a regexp compiled at run time: the match depends on the pattern text only
+	return []Val{{fmt.Sprintf("(reMatch (rePattern %s) %s)", rv.T, subj.T), boolT, "Bool"}}
 }
 
 func libMustCompile(g *FuncGen, c *ast.CallExpr, callee *types.Func, st *State) []Val {
 	tv, ok := g.info.Types[c.Args[0]]
+	pat := ""
 	if !ok || tv.Value == nil {
 		// pattern built at run time: MustCompile panics unless it is a valid expression
 		p := g.ev(c.Args[0], st)
-		g.declFun("validRegexp", []string{"Bytes"}, "Bool")
+		pat = p.T
 		src := g.exprText(c)
 		g.oblige(st, "regexp", src, nil, fmt.Sprintf("(validRegexp %s)", p.T), c.Pos(), src)
 	}
 	r := g.freshVal(st, "re", callee.Type().(*types.Signature).Results().At(0).Type())
 	g.assume(st, fmt.Sprintf("(not (= %s 0))", r.T))
+	if pat != "" {
+		g.assume(st, fmt.Sprintf("(= (rePattern %s) %s)", r.T, pat))
+	}
 	return []Val{r}
 }
 
